@@ -125,9 +125,14 @@ def small(x, L=2, N=2, N2=None):
     if isinstance(x, dict):
         if len(x) > N:
             return False
+        keys = []
         for k in x:          # never .items() on a symbolic dict in a precondition (measured: 120 paths vs 12)
             if len(k) > L:
                 return False
+            for q in keys:   # CrossHair's symbolic dict may hand out two keys that are not constrained to differ
+                if q == k:
+                    return False
+            keys.append(k)
             if not small(x[k], L, M, N2):
                 return False
         return True
